@@ -411,6 +411,10 @@ def main(argv):
                 env["VH_X_" + k.upper()] = v
             for k, v in cfg.get("extra", {}).items():
                 env.setdefault("VH_X_" + k.upper(), v)
+            se = cfg.get("shard_extra")
+            if se:   # per-shard variation (e.g. harness level), cycled over the shards
+                for k, v in se[sh % len(se)].items():
+                    env["VH_X_" + k.upper()] = v
             jobs.append((f"gen{sh}", env))
         timeout = tcfg.get("timeout", 600)
         with ThreadPoolExecutor(max_workers=int(os.environ.get("VERIF_JOBS", "8"))) as ex:
